@@ -12,26 +12,34 @@ META = {
             "array/set/map, unique_ptr/shared_ptr, BABYLON_SERIALIZABLE aggregates with field numbers and base "
             "classes) on top of a model of protobuf's CodedInputStream (the window up to the innermost limit, "
             "PushLimit/PopLimit, varint reads that fail with or without consuming).  Proved for all types/values of "
-            "the universe: predicted size = bytes written; for everything but hash containers: parsing the written "
-            "bytes into a fresh object returns the value (smart pointers to empty encodings come back null), in debug "
-            "and NDEBUG builds; for every aggregate schema: any sequence, in any order, of encodings of distinct known "
-            "fields and unknown fields of every wire type parses to the defaults updated at exactly the fields "
-            "present (unknown skipped, absent keep defaults, order irrelevant).  Tag shift/mask, varint size "
-            "formula, the size==0 skip tests, unknown-field skip widths and the vector loop condition are "
-            "regenerated from the sources on every run.  Tie: ~40 C++ types instantiating the real templates run "
-            "on random typed values (extremes weighted), mutated encodings, crafted prefixes and raw bytes through "
-            "flat array / string / chunked stream +- limit, in a debug and an NDEBUG+ASan+UBSan build, and must "
-            "agree with the extracted model on success flag, value, re-serialised bytes and predicted size; "
-            "monitors check the property text directly (round trip, exact size, success => stable, presentation "
-            "independence, no crash/sanitizer report); protoc-generated messages with the same schema check wire "
-            "compatibility both ways, with unknown fields, shuffled fields and absent fields.",
+            "the universe: predicted size = bytes written; parsing the written bytes into a fresh object returns the "
+            "value for EVERY type incl. unordered_set/map in any iteration order (smart pointers to empty encodings "
+            "come back null; excluded and refuted: container elements that are smart pointers to scalars, streams "
+            "without limit), debug and NDEBUG; for ALL byte strings and ALL types parsing under a limit terminates and "
+            "only moves forward inside its window, what it returns is well shaped, and - for types without hash "
+            "containers - a successful parse of arbitrary bytes serializes and parses back to itself; for every "
+            "aggregate schema any sequence, in any order, of encodings of distinct known fields and unknown fields of "
+            "every wire type parses to the defaults updated at exactly the fields present, and what an aggregate "
+            "writes is, by a hand-written protobuf wire-format specification, a message carrying exactly its "
+            "non-empty members with the payload kinds docs/serialization lists.  Tag shift/mask, varint size "
+            "formula, the size==0 skip tests, the length-read failure branch, the pushed limit, the cache/skip order, "
+            "unknown-field skip widths and the vector loop condition are regenerated from the sources on every run.  "
+            "Tie: ~43 C++ types instantiating the real templates run on random typed values (extremes weighted), "
+            "mutated encodings, crafted prefixes and raw bytes through flat array / string / chunked stream +- limit, "
+            "in a debug and an NDEBUG+ASan+UBSan build, and must agree with the extracted model on success flag, "
+            "value, re-serialised bytes and predicted size; monitors check the property text directly (round trip, "
+            "exact size, success => stable, presentation independence, in-place re-use, no crash/sanitizer report); "
+            "protoc-generated messages with the same schema check wire compatibility both ways, with unknown fields, "
+            "shuffled fields and absent fields.",
     "note": "Trusted: Coq kernel; translator; extraction (ExtrOcamlBasic) + ocaml/se_driver.ml; the C++ harness; "
             "protobuf's CodedInputStream/CodedOutputStream and generated messages (modelled / used as oracle, not "
             "verified); std containers.  Also proved for all byte strings and all types: parsing under a limit never "
             "loops (c11_parse_terminates) and only moves forward inside its window (c11_decode_consumes); on a stream "
             "without limit the same for every type whose containers do not hold smart pointers to scalars.  Not "
-            "proved (correspondence + monitors only): success of a parse of arbitrary bytes => stable; round trip "
-            "through set/map; equality of the wire format with protobuf's encoder; the member size caches of re-used "
+            "proved (correspondence + monitors only): success => stable for types containing unordered_set/map; "
+            "that protoc's classes implement the wire-format specification; independence of the chunking of a "
+            "stream-backed input (the stream model has no chunks; monitors compare flat/string/chunked presentations; "
+            "known exception: >= 10 continuation bytes where a tag is expected); the member size caches of re-used "
             "objects (not modelled: regular monitor on in-place re-use, plus a translator target on the order "
             "`field_cache = size; if (size == 0)`).  Not modelled: sizes >= 2^31, the text printer, the name-keyed "
             "Serializer registry; hash containers are duplicate-free insertion-ordered lists (iteration order of the "
